@@ -36,8 +36,8 @@ from lts import LTS, skey
 
 MANIFEST = dict(
     technique="TLA+ spec (ReproTokenizer: line-class automaton of the tokenizer + element-builder automaton, segment identities) model-checked by TLC; every bounded document replayed into parse_deb822_file/tokenize_deb822_file with several concretizations; recorded parses of random documents validated by TLC (TraceReproTokenizer)",
-    text="TLC checks totality and determinism of the tokenizer automaton on the closed control-state space (documents of any length) and, for every document of up to 4 (quick) / 5-6 (thorough) lines over 11 line classes x termination x the two input modes, that every input segment lands in exactly one token in order (Lossless), that tokens obey the constructor rule (TokenShape) and that the element builders only group tokens (PartsLossless). Each of these documents is concretized several times (odd Unicode whitespace, duplicate and case-variant field names, values with ':' '#' '-', non-ASCII, garbage lines) and fed to the real parser: dump() and the joined token texts must equal the expected text carried by the TLC case. In the other direction random documents of up to 40 lines (walks through the emitted LTS, raw random text, mixtures) are parsed by the real code and TLC validates the recorded outputs against the identity, deciding itself from the code points whether the document is in the domain.",
-    note="Small-scope: bounded configurations stop at 4/6 lines; payload characters are sampled, not enumerated. Field-name equality (duplicate fields) is a payload dimension sampled by the concretizer, not modelled. Token kinds and part lists are diagnostic (spec_drift), only parse success and the two identities give a verdict. Lines may contain any code point except newline (incl. other str.splitlines boundaries); an empty unterminated last line and mixed termination are outside the domain (executed, any outcome accepted). Trusted: TLC, the concretizer, the projection (dump(), token texts); the independent line classifier only feeds diagnostics. Corrupted control traces must be rejected in every run.",
+    text="TLC checks totality and determinism of the tokenizer automaton on the closed control-state space (documents of any length) and, for every document of up to 3 lines over 11 line classes and 4 lines over 6 classes (quick; thorough: 5 lines over 11 classes, 6 lines over 6 classes) x termination x the two input modes, that every input segment lands in exactly one token in order (Lossless), that tokens obey the constructor rule (TokenShape) and that the element builders only group tokens (PartsLossless). Each of these documents is concretized several times (odd Unicode whitespace, duplicate and case-variant field names, values with ':' '#' '-', non-ASCII, garbage lines) and fed to the real parser: dump() and the joined token texts must equal the expected text carried by the TLC case. In the other direction random documents of up to 40 lines (walks through the emitted LTS, raw random text, mixtures) are parsed by the real code and TLC validates the recorded outputs against the identity, deciding itself from the code points whether the document is in the domain.",
+    note="Small-scope: bounded configurations stop at 4/6 lines (the longest ones over a reduced class alphabet; thorough replays documents of <= 4 lines over 11 classes and 5 lines over 8 classes); payload characters are sampled, not enumerated. Field-name equality (duplicate fields) is a payload dimension sampled by the concretizer, not modelled. Token kinds and part lists are diagnostic (spec_drift), only parse success and the two identities give a verdict. Lines may contain any code point except newline (incl. other str.splitlines boundaries); an empty unterminated last line and mixed termination are outside the domain (executed, any outcome accepted). Trusted: TLC, the concretizer, the projection (dump(), token texts); the independent line classifier only feeds diagnostics. Corrupted control traces must be rejected in every run.",
     design="5 (C01)")
 
 SEG = ["nl", "ws", "cmt", "lead", "body", "junk", "name", "colon", "pre", "value", "post", "sp"]
@@ -541,7 +541,8 @@ def make_trace(lines, obs):
         if o is not None and cps(o) not in outs:
             outs.append(cps(o))
     return {"lines": [{"t": cps(l), "cls": classify(l)} for l in lines],
-            "exc": obs["exc"], "outs": outs, "kinds": obs["kinds"] or [], "parts": obs["parts"] or []}
+            # only the exception type goes to TLC (messages may quote arbitrary input text)
+            "exc": "none" if obs["exc"] == "none" else obs["exc"].split(":")[1].strip(), "outs": outs, "kinds": obs["kinds"] or [], "parts": obs["parts"] or []}
 
 
 def corrupt(t, how):
@@ -631,10 +632,10 @@ def record_and_validate(ctx, g, ndocs, maxlen, batch):
         for i in bad:
             lines, obs = docs[i]
             total_bad += 1
-            exp = "".join(lines) if any(l.endswith("\n") for l in lines) or len(lines) < 2 else "".join(l + "\n" for l in lines)
             ctx.violation({"kind": "trace", "lines": lines},
-                          "recorded parse rejected by TraceReproTokenizer (in-domain document, output is not the "
-                          "input): %s; input %r" % (verdict(obs, exp) or "?", lines))
+                          "recorded parse rejected by TraceReproTokenizer: the document is in the domain but the "
+                          "output is not the input (exception: %s; dump() = %r; token texts = %r); input %r"
+                          % (obs["exc"], obs["dump"], obs["tokjoin"], lines))
         for i in drift:
             lines, obs = docs[i]
             ndrift += 1
@@ -652,6 +653,10 @@ def record_and_validate(ctx, g, ndocs, maxlen, batch):
             break
     ctx.extra["trace_docs_by_length_decade"] = {str(k): v for k, v in sorted(lens.items())}
     ctx.extra["lts_edges_hit_by_walk_documents"] = "%d of %d" % (len(gen.edge_hits), len(g.edges))
+    per = {}
+    for (_, op, _a), n in gen.edge_hits.items():
+        per[op] = per.get(op, 0) + n
+    ctx.extra["walk_document_lines_per_branch"] = per
     ctx.extra["traces_rejected"] = total_bad
     ctx.extra["traces_with_drift"] = ndrift
 
@@ -675,8 +680,9 @@ def run(ctx):
     quick = ctx.tier == "quick"
     W = 8
     ctx.assumptions += [
-        "bounded configurations: documents of <= 3 lines over all 11 line classes and of 4 lines over 8 classes (quick); "
-        "<= 5 lines over 11 classes replayed, <= 6 lines over 8 classes model-checked (thorough); the closed lts "
+        "bounded configurations: documents of <= 3 lines over all 11 line classes and of 4 lines over 6 classes (quick); "
+        "<= 4 lines over 11 classes and 5 lines over 8 classes replayed, <= 5 lines over 11 classes and <= 6 lines over 6 "
+        "classes model-checked (thorough); the closed lts "
         "configuration covers the control state for documents of any length",
         "payload (concrete characters, field names incl. duplicates and case variants) is sampled with the run's seed",
         "domain: lines contain no newline except as terminator; an empty unterminated last line and mixed termination "
@@ -708,29 +714,28 @@ def run(ctx):
     bg = None
     bg_res = {}
     if quick:
-        r3 = ctx.tlc_must_hold("ReproTokenizer", "MC_ReproTokenizer_bnd_q3.cfg", workers=W, want_tags={"CASE"})
-        r4 = ctx.tlc_must_hold("ReproTokenizer", "MC_ReproTokenizer_bnd_q4.cfg", workers=W, want_tags={"CASE"})
-        c3 = load_cases(r3)
-        c4 = [c for c in load_cases(r4) if len(c["ls"]) == 4]
-        plan = [(c3, ["canonical", "wild", "wild"]), (c4, ["canonical", "wild"])]
-        ctx.extra["model_constants"] = {"classes": 11, "max_lines_full_alphabet": 3, "max_lines_8_classes": 4,
+        rq = ctx.tlc_must_hold("ReproTokenizer", "MC_ReproTokenizer_bnd_quick.cfg", workers=W, want_tags={"CASE"})
+        cq = load_cases(rq)
+        plan = [([c for c in cq if len(c["ls"]) <= 3], ["canonical", "wild", "wild"]),
+                ([c for c in cq if len(c["ls"]) == 4], ["canonical", "wild"])]
+        ctx.extra["model_constants"] = {"classes": 11, "max_lines_full_alphabet": 3, "max_lines_6_classes": 4,
                                         "modes": ["T", "N"]}
     else:
         def background():
             try:
-                bg_res["r"] = ctx.tlc_must_hold("ReproTokenizer", "MC_ReproTokenizer_bnd6.cfg", workers=6)
+                bg_res["r6"] = ctx.tlc_must_hold("ReproTokenizer", "MC_ReproTokenizer_bnd6.cfg", workers=6)
+                bg_res["r5"] = ctx.tlc_must_hold("ReproTokenizer", "MC_ReproTokenizer_bnd5.cfg", workers=6)
             except Exception as e:      # re-raised in the main thread
                 bg_res["err"] = e
         bg = threading.Thread(target=background)
         bg.start()
-        r5 = ctx.tlc_must_hold("ReproTokenizer", "MC_ReproTokenizer_bnd5.cfg", workers=W, want_tags={"CASE"})
-        c5 = load_cases(r5)
-        short = [c for c in c5 if len(c["ls"]) <= 3]
-        mid = [c for c in c5 if len(c["ls"]) == 4]
-        long_ = [c for c in c5 if len(c["ls"]) == 5]
-        plan = [(short, ["canonical", "ascii", "wild", "wild", "wild", "wild"]),
-                (mid, ["canonical", "wild", "wild"]), (long_, ["wild"])]
-        ctx.extra["model_constants"] = {"classes": 11, "max_lines_full_alphabet": 5, "max_lines_8_classes": 6,
+        rt = ctx.tlc_must_hold("ReproTokenizer", "MC_ReproTokenizer_bnd_thorough.cfg", workers=W, want_tags={"CASE"})
+        ct = load_cases(rt)
+        plan = [([c for c in ct if len(c["ls"]) <= 3], ["canonical", "ascii", "wild", "wild", "wild", "wild"]),
+                ([c for c in ct if len(c["ls"]) == 4], ["canonical", "wild"]),
+                ([c for c in ct if len(c["ls"]) == 5], ["wild"])]
+        ctx.extra["model_constants"] = {"classes": 11, "max_lines_full_alphabet": "4 replayed, 5 model-checked",
+                                        "max_lines_8_classes": "5 replayed", "max_lines_6_classes": "6 model-checked",
                                         "modes": ["T", "N"]}
     n_replayed = 0
     by_len = {}
@@ -753,7 +758,7 @@ def run(ctx):
 
     # 4. code -> spec
     if len(ctx.violations) < ctx.max_violation_files:
-        ndocs, batch = (1500, 1500) if quick else (24000, 4000)
+        ndocs, batch = (1200, 1200) if quick else (12000, 4000)
         record_and_validate(ctx, g, ndocs, 40, batch)
         ctx.traces += ndocs
         ctx.evaluations += ndocs
@@ -774,7 +779,6 @@ def replay(ctx, case):
         obs = observe(lines)
         bad, _, _ = validate(ctx, [(lines, obs)], with_controls=False)
         if bad:
-            exp_t, exp_n = "".join(lines), "".join(l + "\n" for l in lines)
             return "recorded parse still rejected by TraceReproTokenizer: exc=%s dump=%r tokens=%r input=%r" % (
                 obs["exc"], obs["dump"], obs["tokjoin"], lines)
         return None
